@@ -21,7 +21,7 @@ KEY_VARIANT = "case-variant-order"
 
 
 def classify(case_line):
-    tags = case_line.get("tags", [])
+    tags = case_line.get("tags") or []
     if "order-dependent-outcome" in tags:
         return KEY_VARIANT
     if "shadowed-fatal-value" in tags:
